@@ -2,7 +2,7 @@
      src/memory/lockfree_pool.rs   allocate_from_fast_bin / deallocate_to_fast_bin /
                                    allocate_new_block   (generation-tagged 64-bit head)
      src/memory/five_level_pool.rs LockFreePool::alloc_from_fast_bin_lockfree /
-                                   free_to_fast_bin_lockfree
+                                   free_to_fast_bin_lockfree   (tagged since the C08 fix)
    as written: one fast bin, blocks are offsets into one arena, the link of a free block
    is the 32-bit word stored in the block itself, the head is (offset, generation) and
    the generation is incremented modulo [gmod] by every successful compare-exchange
@@ -26,13 +26,17 @@ Record cfg := {
   bsize  : N;      (* aligned block size of the bin *)
   cap    : N;      (* arena size in bytes *)
   bump0  : N;      (* first offset handed out: 8 / 0 *)
-  lfkind : bool    (* true: lockfree_pool.rs (bump advances before the capacity check,
-                      head reported packed); false: five_level_pool.rs *)
+  lfkind : bool    (* true: lockfree_pool.rs (bump advances before the capacity check);
+                      false: five_level_pool.rs (capacity check first, under the mutex) *)
 }.
 
 Definition cfg_lockfree (size capacity : N) : cfg :=
   {| gmod := W32; tail := 0; bsize := size; cap := capacity; bump0 := 8; lfkind := true |}.
 Definition cfg_fivelevel (size capacity : N) : cfg :=
+  {| gmod := W32; tail := W32 - 1; bsize := size; cap := capacity; bump0 := 0; lfkind := false |}.
+(* the five-level / fixed-capacity heads as they were before the generation was added
+   (bare AtomicU32 offset): kept to show that the generation is what the proof needs *)
+Definition cfg_untagged (size capacity : N) : cfg :=
   {| gmod := 1; tail := W32 - 1; bsize := size; cap := capacity; bump0 := 0; lfkind := false |}.
 
 Inductive cmd :=
@@ -85,7 +89,7 @@ Definition init (nthreads : nat) (c : cfg) : state :=
      thr := repeat {| pc := Idle; held := [] |} nthreads; fl := []; ncas := 0 |}.
 
 (* the value the hook reports after head.load *)
-Definition pack (c : cfg) (h g : N) : N := if lfkind c then g * W32 + h else h.
+Definition pack (c : cfg) (h g : N) : N := if gmod c =? 1 then h else g * W32 + h.
 
 Definition set_thr (s : state) (t : nat) (x : local) : state :=
   {| head := head s; gen := gen s; nxt := nxt s; count := count s; bump := bump s;
@@ -221,6 +225,10 @@ Definition exclusive (c : cfg) (s : state) (fuel : nat) : bool :=
   | None => false
   | Some free => nodup_n (all_holds s ++ free)
   end.
+
+(* side conditions on a configuration: no block offset equals LIST_TAIL, blocks are not empty *)
+Definition cfg_wf (c : cfg) : Prop :=
+  (forall off, bump0 c <= off -> off + bsize c <= cap c -> off <> tail c) /\ 0 < bsize c.
 
 (* ======================================================================================
    Treiber stack of src/memory/secure_pool.rs (LockFreeStack<T>::{push,pop}): the head is
